@@ -1,5 +1,5 @@
 #!/bin/bash
 cd /verif
-for id in ${@:-C01 C02 C08 C09 C10 C11 C12 C13 C14 C16 C18}; do
-  ./bin/govc check $id --write-baseline -v 2>&1 | grep -v "^KNOWN" | grep "NOT-DISCHARGED \(post\|pre\|inv\|dec\|schema\|rank\|rg\|own\|struct\)\|^C[0-9]" | cut -c1-220 | tail -12
+for id in ${@:-C01 C02 C04 C05 C08 C09 C10 C11 C12 C13 C14 C15 C16 C18 C19 C20}; do
+  ./bin/govc check $id --write-baseline -v 2>&1 | grep -v "^KNOWN" | grep "NOT-DISCHARGED \(post\|pre\|inv\|dec\|schema\|rank\|rg\|own\|struct\|crash\|reads\)\|^C[0-9]" | cut -c1-220 | tail -12
 done
